@@ -188,6 +188,12 @@ def narrow32(q):
     return Fraction(f32(float(q)))          # q is a double value here (stored double), so float(q) is exact
 
 
+def synth_val(k):
+    """contents of a synthetic large field (`G` line): the word at flat position k; the same function as in lin_harness.cpp and
+    Driver/LinCheck.lean"""
+    return ((k * 2654435761) % 4294967296) % 1021 - 510
+
+
 def py_oracle(N, M, vprec, cprec, clamp, sz, cells, coord, impl, idx):
     """independent exact evaluation; returns dict of booleans (True = property holds on the implementation's output)"""
     xs = [exact(cprec, b) for b in coord]
@@ -216,7 +222,7 @@ def py_oracle(N, M, vprec, cprec, clamp, sz, cells, coord, impl, idx):
         res["detail"] += f" read {sorted(idx)} expected {sorted(c[1] for c in corners)};"
     lattice = all(f == 0 for f in fr)
     for q in range(M):
-        vals = [exact(vprec, cells[fi * M + q]) for (_, fi, _) in corners]
+        vals = [exact(vprec, cells[fi * M + q]) if cells is not None else Fraction(synth_val(fi * M + q)) for (_, fi, _) in corners]
         ex = sum(w * v for (w, _, _), v in zip(corners, vals))
         ab = sum(abs(w * v) for (w, _, _), v in zip(corners, vals))
         bound = gamma * ab + k * tiny * max(1, sum(abs(v) for v in vals))
@@ -299,13 +305,15 @@ def run_combo(args):
     drv_lines = []
     back = []          # per driver line: None (F) or (field index, point index, [cfgs], impl words, idx words)
     for fi, (clamp, sz, cells, pts) in enumerate(fields):
-        fline = f"F {1 if clamp else 0} {' '.join(map(str, sz))} | {' '.join(map(str, cells))}"
+        fline = (f"F {1 if clamp else 0} {' '.join(map(str, sz))} | {' '.join(map(str, cells))}" if cells is not None else
+                 f"G {1 if clamp else 0} {' '.join(map(str, sz))}")
         llines = ["L " + " ".join(map(str, co)) for co, _ in pts]
         per_cfg = {}
         for cfg in cfgs:
             outs, _ = C.run_lines(f"{workdir}/{exe_name(combo, cfg)}", llines, setup=[fline], min_timeout=60)
             per_cfg[cfg] = outs
-        drv_lines.append(f"F {vp} {M} {1 if clamp else 0} {' '.join(map(str, sz))} | {' '.join(map(str, cells))}")
+        drv_lines.append(f"F {vp} {M} {1 if clamp else 0} {' '.join(map(str, sz))} | {' '.join(map(str, cells))}" if cells is not None else
+                         f"G {vp} {M} {1 if clamp else 0} {' '.join(map(str, sz))}")
         back.append(None)
         for pi, (co, pc) in enumerate(pts):
             seen = {}
@@ -316,7 +324,8 @@ def run_combo(args):
                 else:
                     seen[o] = [cfg]
             for o, cf in seen.items():
-                cj = {"combo": list(combo), "clamp": clamp, "sz": sz, "cells": cells, "coord": co, "cfg": cf[0], "class": pc}
+                cj = {"combo": list(combo), "clamp": clamp, "sz": sz, "cells": cells, "coord": co, "cfg": cf[0], "class": pc,
+                      "previous": [pts[j][0] for j in range(max(0, pi - 2), pi)]}     # the harness keeps one long-lived view per field
                 parts = o.split("|")
                 ok_shape = not o.startswith("CRASH") and len(parts) == 2
                 if ok_shape:
@@ -488,6 +497,21 @@ def run(ctx):
             sz, cells = gen_field(rnd, N, M, vp, cp, clamp)
             pts = [gen_point(rnd, cp, sz, clamp) for _ in range(npts)]
             fields.append((clamp, sz, cells, pts))
+        if M == 1 and N <= 3:
+            # one LARGE field with synthetic contents (millions of cells: an extent beyond 2^21), looked up through one long-lived
+            # view at cells whose indices differ by powers of two, back to back
+            L = (1 << 22) + 5 if N == 1 else (1 << 21) + 9
+            sz = [2] * (N - 1) + [L] if rnd.random() < 0.5 or N == 1 else [L] + [2] * (N - 1)
+            ax = sz.index(L)
+            pts = []
+            for k in (8, 12, 16, 20, 21):
+                for b in (0, 1, 5):
+                    fr = rnd.choice([0.5, 0.25, 0.75, 0.0])
+                    for base in (b, b + (1 << k)):
+                        x = [rnd.choice([0.0, 0.25, 0.5]) for _ in range(N)]
+                        x[ax] = base + fr
+                        pts.append(([tobits(cp, v) for v in x], "large-field"))
+            fields.append((False, sz, None, pts))
         tasks.append((str(ctx.work.dir), cb, fields, cfgs, ctx.seed * 31 + len(tasks), 0.06 if ctx.quick else 0.004))
     with ProcessPoolExecutor(max_workers=C.NCPU) as ex:
         outs = list(ex.map(run_combo, tasks))
@@ -572,5 +596,5 @@ def replay(ctx):
     if c.get("compile_only"):
         corr.add_obl("harness_compiles", 1, 0)
         return merge(corr, [])
-    fields = [(c["clamp"], c["sz"], c["cells"], [(c["coord"], c.get("class", "replay"))])]
+    fields = [(c["clamp"], c["sz"], c["cells"], [(p, "replay-previous") for p in c.get("previous", [])] + [(c["coord"], c.get("class", "replay"))])]
     return merge(corr, [run_combo((str(ctx.work.dir), cb, fields, [cfg], 0, 0.0))])
